@@ -292,6 +292,19 @@ def workload(rng, tier):
     return stmts
 
 
+def wide_inputs(k=2400):
+    """many distinct malformed statements, each with an offending token of its own: process-wide state that is keyed by
+    what was seen so far (caches of messages/suggestions, interned names) only reaches its eviction / growth paths
+    after many distinct keys"""
+    shapes = ["SELECT a FROM t WHERE zq%d zr%d", "SELEC%d 1", "SELECT '''w%dx'''", "SELECT a FROM t ORDER zb%d", "INSERT INTO t VALUS%d (1)",
+              "SELECT a FROM t JOIN u ON%d a = b"]
+    out = []
+    for i in range(k):
+        sh = shapes[i % len(shapes)]
+        out.append(sh % ((i,) * sh.count("%d")))
+    return out
+
+
 def run_mix(n, k, seed, inputs, ops=None, race=True, timeout=900):
     req = {"mode": "mix", "n": n, "ops_per_g": k, "seed": seed, "inputs": inputs}
     if ops:
@@ -465,6 +478,15 @@ def run(tier):
                 found = {"mode": "mix", "n": n, "ops_per_g": 300, "seed": common.seed() + n, "inputs": inputs_t, "ops": ops, "report": hit[0]}
                 race_hits[cell] = hit[0]
                 break
+        if not found and searches <= 4:
+            # second aim: many distinct malformed inputs (state keyed by what was seen so far: caches reach their eviction paths)
+            wide = wide_inputs()
+            rc, res, races, err = run_mix(nc, 1500, common.seed() + 7, wide, ops=ops)
+            evals += 1
+            hit = [r for r in races if any(w.split(":")[0] in files for w in r["where"])]
+            if hit:
+                found = {"mode": "mix", "n": nc, "ops_per_g": 1500, "seed": common.seed() + 7, "inputs_generator": "wide_inputs(2400)", "ops": ops, "report": hit[0]}
+                race_hits[cell] = hit[0]
         if found:
             base.update(found)
             base["explanation"] = "unsynchronised access to package-level state %s — %s reported at %s while %d goroutines ran %s" % (
@@ -599,7 +621,7 @@ def replay(path):
         print(json.dumps(res))
         return 1 if (res is None or res["failed_rounds"]) else 0
     if mode == "mix":
-        rc, res, races, err = run_mix(d["n"], d["ops_per_g"], d.get("seed", 1), d["inputs"], ops=d.get("ops"))
+        rc, res, races, err = run_mix(d["n"], d["ops_per_g"], d.get("seed", 1), d["inputs"] if d.get("inputs") is not None else wide_inputs(), ops=d.get("ops"))
         print(json.dumps({"exit": rc, "races": races[:3], "mismatches": (res or {}).get("mismatches"), "bad_totals": (res or {}).get("bad_totals")}))
         return 1 if (rc != 0 or races or res is None or res["mismatches"] or res["bad_totals"]) else 0
     if mode == "seq":
